@@ -356,6 +356,26 @@ class Parser:
                 self.eat(";")
                 stmts.append(("lettuple", names, e))
                 continue
+            if self.at("let") and self.peek(1)[0] == "id" and self.peek(1)[1][0].isupper() and self.peek(2)[1] == "{":
+                # `let Struct { f: v, g, .. } = e;`: the named fields bound to variables
+                self.i += 1
+                sname = self.ident()
+                self.eat("{")
+                binds = []
+                while not self.at("}"):
+                    if self.opt(".."):
+                        break
+                    fn_ = self.ident()
+                    vn_ = self.ident() if self.opt(":") else fn_
+                    binds.append((fn_, vn_))
+                    if not self.opt(","):
+                        break
+                self.eat("}")
+                self.eat("=")
+                e = self.expr()
+                self.eat(";")
+                stmts.append(("letstruct", sname, binds, e))
+                continue
             if self.at("let"):
                 self.i += 1
                 mut = self.opt("mut")
@@ -574,7 +594,25 @@ class Parser:
             self.eat("{")
             arms = []
             while not self.at("}"):
-                p = self.pattern()
+                save_ = self.i
+                try:
+                    p = self.pattern()
+                    if not self.at("=>"):
+                        raise Unsupported("pattern")
+                except Unsupported:
+                    # a pattern outside the subset: skipped up to its `=>` (an error only if the match is translated)
+                    self.i = save_
+                    self.skip_attrs()
+                    d_ = 0
+                    while not (d_ == 0 and self.at("=>")):
+                        if self.peek()[0] == "eof":
+                            raise Unsupported("unterminated match arm")
+                        if self.peek()[0] == "op" and self.peek()[1] in "([{":
+                            d_ += 1
+                        elif self.peek()[0] == "op" and self.peek()[1] in ")]}":
+                            d_ -= 1
+                        self.i += 1
+                    p = ("opaque",)
                 self.eat("=>")
                 e = self.expr()
                 arms.append((p, e))
@@ -738,7 +776,7 @@ class Gen:
             return "Nat"     # a leaf value: an opaque identifier (its hash and index are reads)
         if ty in getattr(self, "penums", {}):
             return ty
-        if ty in ("Symbol", "Signer", "Val"):
+        if ty in ("Symbol", "Signer", "Val", "Ctx"):
             return "Nat"     # a role / function name / host value: an opaque identifier
         if ty in ("Address", "MuxedAddress"):
             return "Nat"     # an account / contract: an opaque identifier (a muxed address: its account)
@@ -1212,6 +1250,8 @@ class Gen:
             al, at_ = self.pure(args[0], env)
             elt = rt[4:-1]
             return (f"(decide ({as_nat(al, at_) if elt in NATTY else al} ∈ {rl}))", "bool")
+        if rt.startswith("Vec<") and name == "is_empty" and not args:
+            return (f"(List.isEmpty {rl})", "bool")
         if rt.startswith("Vec<") and name == "len" and not args:
             return (f"(List.length {rl})", "u32")
         if rt in NATTY and name == "div_ceil" and len(args) == 1:
@@ -1453,6 +1493,30 @@ class Gen:
             if f == ("var", "Wad"):
                 return self.tr(e[2][0], env, lambda a, t: k(a, "Wad"), ret)
             raise Unsupported(f"call of {f} ({pure_err})")
+        if kind == "mcall" and self.strip(e[1])[0] == "call" and self.strip(e[1])[1][0] == "path" and len(self.strip(e[1])[1][1]) == 2 \
+                and self.strip(e[1])[1][1][1] == "new" and self.strip(e[1])[1][1][0].endswith("Client") \
+                and isinstance(getattr(self, "reads", {}).get(self.strip(e[1])[1][1][0] + "_" + e[2]), tuple):
+            # `XClient::new(e, &addr).method(args)`: a cross-contract call, a function of the reads record that
+            # may panic; its first argument is the called contract's address
+            c_ = self.strip(e[1])
+            cname = c_[1][1][0] + "_" + e[2]
+            spec = self.reads[cname]
+            if spec[0] != "fn":
+                raise Unsupported(f"cross-contract call {cname} must be declared as ('fn', ..)")
+            cargs = [a for a in c_[2] if not self.is_handle(a, env)] + [a for a in e[3] if not self.is_handle(a, env)]
+            if len(cargs) != len(spec[1]):
+                raise Unsupported(f"{cname}: arity")
+            self.uses_reads = True
+            atoms = []
+            def gox(j):
+                if j == len(cargs):
+                    v_ = self.fresh()
+                    return f"(Comp.bind (envr.{cname} {' '.join(atoms)}) fun {v_} =>\n {k(v_, spec[2])})"
+                def kx(a, t):
+                    atoms.append(as_nat(a, t) if spec[1][j] in NATTY else a)
+                    return gox(j + 1)
+                return self.tr(cargs[j], env, kx, ret)
+            return gox(0)
         if kind == "mcall":
             _, recv, name, args = e
 
@@ -1555,6 +1619,9 @@ class Gen:
                 if lhs[0] != "var":
                     raise Unsupported("assignment to a non-variable")
                 acc.add(lhs[1])
+            elif st[0] == "expr" and self.strip(st[1])[0] == "mcall" and self.strip(st[1])[2] in ("push_back", "append", "extend_from_array") \
+                    and self.strip(self.strip(st[1])[1])[0] == "var":
+                acc.add(self.strip(self.strip(st[1])[1])[1])     # a growing collection is a re-bound variable
             elif st[0] == "while":
                 self.assigned_vars(self.as_stmts(st[2])[1], acc)
             elif st[0] == "for":
@@ -1640,6 +1707,23 @@ class Gen:
                 if wc is not None:
                     self._writer_ok = True
                     return self.tr(s[3], env, lambda a, t: go(i + 1, dict(env, **{s[1]: (f"{a}.1", t), "$st": (f"{a}.2", "Store")})), ret)
+            if s[0] == "let" and (self.cur_fn, s[1]) in getattr(self, "let_stubs", {}):
+                # a DECLARED hole: this binding's initializer is outside the subset; it is replaced by a call of a
+                # function of the reads record (recorded in the trusted base of the property that uses it)
+                fn_, args_ = self.let_stubs[(self.cur_fn, s[1])]
+                s = ("let", s[1], s[2], ("call", ("var", fn_), [("var", a_) for a_ in args_]), s[4] if len(s) > 4 else None)
+            if s[0] == "letstruct":
+                flds_ = dict(getattr(self, "structs", {}).get(s[1], []))
+                def kls(a, t):
+                    if t != s[1]:
+                        raise Unsupported(f"struct pattern {s[1]} on {t}")
+                    env2 = dict(env)
+                    for fn_, vn_ in s[2]:
+                        if fn_ not in flds_:
+                            raise Unsupported(f"struct pattern: no field {fn_}")
+                        env2[vn_] = (f"{a}.{fn_}", flds_[fn_])
+                    return go(i + 1, env2)
+                return self.tr(s[3], env, kls, ret)
             if s[0] == "let":
                 ann = s[4] if len(s) > 4 else None
                 def klet(a, t):
@@ -1647,6 +1731,13 @@ class Gen:
                         a, t = as_nat(a, t), ann
                     elif t == "int" and ann in INT_TYPES:
                         t = ann
+                    if t == "Vec<?>" and ann and ann.startswith("Vec<"):
+                        t = ann
+                    elif t == "Vec<?>" and i + 1 < len(stmts) or t == "Vec<?>":
+                        # an empty vector without annotation: it has the function's result type when it is what
+                        # the function returns
+                        if getattr(self, "ret_var", None) == s[1] and ret.startswith("Vec<"):
+                            t = ret
                     return go(i + 1, dict(env, **{s[1]: (a, t)}))
                 return self.tr(s[3], env, klet, ret)
             if s[0] == "letelse":
@@ -1872,6 +1963,16 @@ class Gen:
             t_ = self.strip(b[2])
             if t_[0] == "if" and t_[2][0] == "block" and (t_[2][2] is None or t_[3] is None):
                 return ("block", b[1] + [("expr", b[2])], None)
+            def unit_if(x):
+                # an `if` whose branches are blocks ending in nothing or in another such `if`
+                x = self.strip(x)
+                if x[0] != "if" or x[2][0] != "block":
+                    return False
+                def unit_block(bl):
+                    return bl is None or (bl[0] == "block" and (bl[2] is None or unit_if(bl[2]))) or (bl[0] == "if" and unit_if(bl))
+                return unit_block(x[2]) and unit_block(x[3])
+            if unit_if(t_):
+                return ("block", b[1] + [("expr", b[2])], None)
             if t_[0] == "match" and any(p_[0] == "vstruct" for p_, _ in t_[2]):
                 return ("block", b[1] + [("expr", b[2])], None)
         return b
@@ -1945,6 +2046,39 @@ class Gen:
             if m not in env:
                 raise Unsupported(f"loop assigns unknown variable {m}")
         carry_st = "$st" in env and (self.cur_ns, self.cur_fn) in getattr(self, "writers", set())
+        def has_return(x):
+            if isinstance(x, tuple):
+                return (len(x) > 0 and x[0] == "return") or any(has_return(y) for y in x)
+            if isinstance(x, list):
+                return any(has_return(y) for y in x)
+            return False
+        if not muts and not carry_st and has_return(body[1]) and not isinstance(var, tuple) and not getattr(self, "ret_wrap", None):
+            # `for x in v { .. return r; .. }` that assigns nothing: structural recursion on the list; the
+            # auxiliary result is `some r` when the body returned `r` from the FUNCTION, `none` at the end
+            self.loops += 1
+            name = f"{self.cur_ns}.{self.cur_fn}.loop{self.loops}"
+            others = [v for v in sorted(env) if not v.startswith("$") and not env[v][1].startswith(("Key:", "Client:"))]
+            penv = {v: (v + "_", env[v][1]) for v in others}
+            if "$st" in env:
+                penv["$st"] = ("st_", "Store")
+            plist = " ".join(f"({penv[v][0]} : {self.lean_ty(env[v][1])})" for v in others)
+            if "$st" in env:
+                plist = f"(st_ : {self.cur_ns}.Store) " + plist
+            rd = self.cur_ns in getattr(self, "reads_ns", set())
+            ev = " envr" if rd else ""
+            stp = lambda en: (en["$st"][0] + " ") if "$st" in env else ""
+            again = lambda en: f"{name}{ev} rest_ {stp(en)}{' '.join(penv[v][0] for v in others)}"
+            benv = dict(penv, **{var: (var + "_", elt)})
+            self.ret_wrap = lambda x: f"(some {x})"
+            try:
+                code = self.tr_stmts(body[1], benv, again, ret)
+            finally:
+                self.ret_wrap = None
+            self.aux.append(f"def {name} {'(envr : ' + self.cur_ns + '.Reads) ' if rd else ''}(xs_ : List {self.lean_ty(elt)}) {plist} : Comp (Option {self.lean_ty(ret)}) :=\n"
+                            f" match xs_ with\n | [] => Comp.ok none\n | {var}_ :: rest_ =>\n {code}\n")
+            r, v = self.fresh("r"), self.fresh("v")
+            return (f"(Comp.bind ({name}{ev} {cl} {stp(env)}{' '.join(env[v_][0] for v_ in others)}) fun {r} =>\n"
+                    f" (optCase {r}\n (fun {v} => Comp.ok {v})\n ({k_after(env)})))")
         if not muts and not carry_st:
             raise Unsupported("for loop without loop-carried variables")
         others = [v for v in sorted(env) if v not in muts and not v.startswith("$") and not env[v][1].startswith(("Key:", "Client:"))]
@@ -2076,6 +2210,7 @@ class Gen:
         _, name, params, ret, body, impl_of = f
         self.cur_ns = ns
         self.cur_fn = name
+        self.ret_var = body[2][1] if (body and body[0] == "block" and body[2] is not None and body[2][0] == "var") else None
         self.sigs_local = {("", n) for n in local_names}
         self.n = 0
         self.loops, self.aux, self.uses_fuel = 0, [], False
@@ -2219,6 +2354,13 @@ FILES_CTL = [("Controller", "packages/governance/src/timelock/mod.rs", []),
              ("Controller", "examples/timelock-controller/src/contract.rs", ["__check_auth"])]
 TYMAPS_CTL = {"packages/governance/src/timelock/storage.rs": {"BytesN<32>": "Bytes32"},
               "examples/timelock-controller/src/contract.rs": {"BytesN<32>": "Bytes32", "Hash<32>": "Key!", "Vec<Val>": "Val"}}
+STRUCTS_SA = {"ContextRule": [("id", "u32"), ("context_type", "Val"), ("name", "Val"), ("signers", "Vec<Signer>"), ("policies", "Vec<Address>"),
+                               ("valid_until", "Option<u32>")]}
+READS_SA = {"SmartAccount": {"valid_context_rules": ("fn", ["Ctx"], "Vec<ContextRule>"),
+                             "PolicyClient_can_enforce": ("fn", ["Address", "Ctx", "Vec<Signer>", "ContextRule"], "bool")}}
+FILES_SA = [("SmartAccount", "packages/accounts/src/smart_account/mod.rs", []),
+            ("SmartAccount", "packages/accounts/src/smart_account/storage.rs",
+             ["get_authenticated_signers", "can_enforce_all_policies", "get_validated_context", "validate_signers_and_policies"])]
 STORE_RT = {"RoleTransfer": {"Pending": ([], "Address", "temp"), "Active": ([], "Address")}}
 READS_RT = {"RoleTransfer": {"ledger_sequence": "u32", "min_temp_ttl": "u32", "max_ttl": "u32", "authorized": "addr2bool"}}
 FILES_RT = [("RoleTransfer", "packages/access/src/role_transfer/storage.rs", ["transfer_role", "accept_transfer"])]
@@ -2293,7 +2435,7 @@ def deps(e, acc):
 
 def translate(repo, FILES=FILES, DEPS=(), imports=("OZ.Model.RustSem",), reads=None, structs=None, tymaps=None,
               store=None, impl_types=None, stubs=None, rename_types=None, key_params=None, fn_prefix=None,
-              allow_traits=(), penums=None):
+              allow_traits=(), penums=None, let_stubs=None):
     """DEPS: files translated elsewhere whose signatures are needed (parsed, not emitted);
     reads: {namespace: {getter name: Rust type}} — the side-effect-free state getters (`Self::name(e)`)
     that become fields of the record `<namespace>.Reads` passed to every function of that namespace"""
@@ -2468,6 +2610,7 @@ def translate(repo, FILES=FILES, DEPS=(), imports=("OZ.Model.RustSem",), reads=N
         g.enums = enums
         g.structs = structs or {}
         g.penums = penums or {}
+        g.let_stubs = let_stubs or {}
         for f in order:
             out.append(g.function(ns, f, free))
             for sn, (sns, after, ptys_, rty_, text_) in (stubs or {}).items():
@@ -2784,6 +2927,13 @@ def main():
             txt = translate(repo, FILES_FT, imports=("OZ.Model.RustSemHost",), reads=READS_FT, structs=STRUCTS_FUNGIBLE, store=STORE_FT,
                             impl_types={"Base": "FungibleT"},
                             rename_types={"AllowanceData": "FungibleT.AllowanceData", "AllowanceKey": "FungibleT.AllowanceKey"})
+        elif "--smart-account" in sys.argv:
+            # HOLE (declared): the candidate list `context_rules` of `get_validated_context` (the `match` on the host's
+            # Context object and `get_valid_context_rules`) is the function `valid_context_rules` of the reads record
+            txt = translate(repo, FILES_SA, reads=READS_SA, structs=STRUCTS_SA,
+                            tymaps={"packages/accounts/src/smart_account/storage.rs": {"Context": "Ctx"}},
+                            let_stubs={("get_validated_context", "context_rules"): ("valid_context_rules", ["e", "context"])},
+                            rename_types={"ContextRule": "SmartAccount.ContextRule"})
         elif "--controller" in sys.argv:
             txt = translate(repo, FILES_CTL, reads=READS_CTL, structs=STRUCTS_CTL, penums=PENUMS_CTL, store=STORE_CTL, tymaps=TYMAPS_CTL,
                             allow_traits=("CustomAccountInterface",),
